@@ -301,7 +301,15 @@ impl DataModel {
         Ok(())
     }
 
-    pub fn update_with(&mut self, mut new_data_model: Self, system: bool) -> Result<(), Error> {
+    /// all-or-nothing: the checks and assignments run on a copy that replaces `self` only on success
+    pub fn update_with(&mut self, new_data_model: Self, system: bool) -> Result<(), Error> {
+        let mut updated = self.clone();
+        updated.update_with_in_place(new_data_model, system)?;
+        *self = updated;
+        Ok(())
+    }
+
+    fn update_with_in_place(&mut self, mut new_data_model: Self, system: bool) -> Result<(), Error> {
         for namespace in &new_data_model.namespace_ids {
             if system && !SYSTEM_NAMESPACE.eq(namespace.0) {
                 return Err(Error::NamespaceUpdate(format!(
